@@ -71,9 +71,18 @@ struct Recorder {
 impl Recorder {
     /// items are recorded one by one so that what the handler saw before a panic inside the
     /// library's iterator is kept
-    fn push(&mut self, info: HeaderInfo, ty: &str, items: &mut dyn Iterator<Item = (u16, String, u8, Option<Time>)>) {
+    fn push(
+        &mut self,
+        info: HeaderInfo,
+        ty: &str,
+        items: &mut dyn Iterator<Item = (u16, String, u8, Option<Time>)>,
+    ) {
         let (g, v) = info.variation.to_group_and_var();
-        self.calls.push(Call { variation: info.variation, has_flags: info.has_flags, items: Vec::new() });
+        self.calls.push(Call {
+            variation: info.variation,
+            has_flags: info.has_flags,
+            items: Vec::new(),
+        });
         for (idx, val, flags, time) in items {
             let line = format!(
                 "m {ty} {idx} g{g}v{v} hf={} {val} {flags} {}",
@@ -92,31 +101,116 @@ impl ReadHandler for Recorder {
     fn end_fragment(&mut self, _read_type: ReadType, _header: ResponseHeader) -> MaybeAsync<()> {
         MaybeAsync::ready(())
     }
-    fn handle_binary_input(&mut self, info: HeaderInfo, iter: &mut dyn Iterator<Item = (BinaryInput, u16)>) {
-        self.push(info, "bi", &mut iter.map(|(m, i)| (i, format!("{}", u8::from(m.value)), m.flags.value, m.time)));
+    fn handle_binary_input(
+        &mut self,
+        info: HeaderInfo,
+        iter: &mut dyn Iterator<Item = (BinaryInput, u16)>,
+    ) {
+        self.push(
+            info,
+            "bi",
+            &mut iter.map(|(m, i)| (i, format!("{}", u8::from(m.value)), m.flags.value, m.time)),
+        );
     }
-    fn handle_double_bit_binary_input(&mut self, info: HeaderInfo, iter: &mut dyn Iterator<Item = (DoubleBitBinaryInput, u16)>) {
-        self.push(info, "db", &mut iter.map(|(m, i)| (i, format!("{}", dbit_num(m.value)), m.flags.value, m.time)));
+    fn handle_double_bit_binary_input(
+        &mut self,
+        info: HeaderInfo,
+        iter: &mut dyn Iterator<Item = (DoubleBitBinaryInput, u16)>,
+    ) {
+        self.push(
+            info,
+            "db",
+            &mut iter.map(|(m, i)| (i, format!("{}", dbit_num(m.value)), m.flags.value, m.time)),
+        );
     }
-    fn handle_binary_output_status(&mut self, info: HeaderInfo, iter: &mut dyn Iterator<Item = (BinaryOutputStatus, u16)>) {
-        self.push(info, "bo", &mut iter.map(|(m, i)| (i, format!("{}", u8::from(m.value)), m.flags.value, m.time)));
+    fn handle_binary_output_status(
+        &mut self,
+        info: HeaderInfo,
+        iter: &mut dyn Iterator<Item = (BinaryOutputStatus, u16)>,
+    ) {
+        self.push(
+            info,
+            "bo",
+            &mut iter.map(|(m, i)| (i, format!("{}", u8::from(m.value)), m.flags.value, m.time)),
+        );
     }
     fn handle_counter(&mut self, info: HeaderInfo, iter: &mut dyn Iterator<Item = (Counter, u16)>) {
-        self.push(info, "ct", &mut iter.map(|(m, i)| (i, format!("{}", m.value), m.flags.value, m.time)));
+        self.push(
+            info,
+            "ct",
+            &mut iter.map(|(m, i)| (i, format!("{}", m.value), m.flags.value, m.time)),
+        );
     }
-    fn handle_frozen_counter(&mut self, info: HeaderInfo, iter: &mut dyn Iterator<Item = (FrozenCounter, u16)>) {
-        self.push(info, "fc", &mut iter.map(|(m, i)| (i, format!("{}", m.value), m.flags.value, m.time)));
+    fn handle_frozen_counter(
+        &mut self,
+        info: HeaderInfo,
+        iter: &mut dyn Iterator<Item = (FrozenCounter, u16)>,
+    ) {
+        self.push(
+            info,
+            "fc",
+            &mut iter.map(|(m, i)| (i, format!("{}", m.value), m.flags.value, m.time)),
+        );
     }
-    fn handle_analog_input(&mut self, info: HeaderInfo, iter: &mut dyn Iterator<Item = (AnalogInput, u16)>) {
-        self.push(info, "ai", &mut iter.map(|(m, i)| (i, format!("{:016x}", m.value.to_bits()), m.flags.value, m.time)));
+    fn handle_analog_input(
+        &mut self,
+        info: HeaderInfo,
+        iter: &mut dyn Iterator<Item = (AnalogInput, u16)>,
+    ) {
+        self.push(
+            info,
+            "ai",
+            &mut iter.map(|(m, i)| {
+                (
+                    i,
+                    format!("{:016x}", m.value.to_bits()),
+                    m.flags.value,
+                    m.time,
+                )
+            }),
+        );
     }
-    fn handle_frozen_analog_input(&mut self, info: HeaderInfo, iter: &mut dyn Iterator<Item = (FrozenAnalogInput, u16)>) {
-        self.push(info, "fa", &mut iter.map(|(m, i)| (i, format!("{:016x}", m.value.to_bits()), m.flags.value, m.time)));
+    fn handle_frozen_analog_input(
+        &mut self,
+        info: HeaderInfo,
+        iter: &mut dyn Iterator<Item = (FrozenAnalogInput, u16)>,
+    ) {
+        self.push(
+            info,
+            "fa",
+            &mut iter.map(|(m, i)| {
+                (
+                    i,
+                    format!("{:016x}", m.value.to_bits()),
+                    m.flags.value,
+                    m.time,
+                )
+            }),
+        );
     }
-    fn handle_analog_output_status(&mut self, info: HeaderInfo, iter: &mut dyn Iterator<Item = (AnalogOutputStatus, u16)>) {
-        self.push(info, "ao", &mut iter.map(|(m, i)| (i, format!("{:016x}", m.value.to_bits()), m.flags.value, m.time)));
+    fn handle_analog_output_status(
+        &mut self,
+        info: HeaderInfo,
+        iter: &mut dyn Iterator<Item = (AnalogOutputStatus, u16)>,
+    ) {
+        self.push(
+            info,
+            "ao",
+            &mut iter.map(|(m, i)| {
+                (
+                    i,
+                    format!("{:016x}", m.value.to_bits()),
+                    m.flags.value,
+                    m.time,
+                )
+            }),
+        );
     }
-    fn handle_octet_string<'a>(&mut self, info: HeaderInfo, iter: &'a mut dyn Iterator<Item = (&'a [u8], u16)>) {
+    fn handle_octet_string<'a>(
+        &mut self,
+        info: HeaderInfo,
+        iter: &'a mut dyn Iterator<Item = (&'a [u8], u16)>,
+    ) {
         self.push(info, "os", &mut iter.map(|(m, i)| (i, hex(m), 0u8, None)));
     }
 }
@@ -170,47 +264,124 @@ impl ConvertProbe {
         self.db.transaction(|db| {
             Some(match ty {
                 "bi" => {
-                    let s = match svar { 1 => StaticBinaryInputVariation::Group1Var1, 2 => StaticBinaryInputVariation::Group1Var2, _ => return None };
-                    let e = match evar { 1 => EventBinaryInputVariation::Group2Var1, 2 => EventBinaryInputVariation::Group2Var2, 3 => EventBinaryInputVariation::Group2Var3, _ => return None };
+                    let s = match svar {
+                        1 => StaticBinaryInputVariation::Group1Var1,
+                        2 => StaticBinaryInputVariation::Group1Var2,
+                        _ => return None,
+                    };
+                    let e = match evar {
+                        1 => EventBinaryInputVariation::Group2Var1,
+                        2 => EventBinaryInputVariation::Group2Var2,
+                        3 => EventBinaryInputVariation::Group2Var3,
+                        _ => return None,
+                    };
                     db.add(index, class, BinaryInputConfig::new(s, e))
                 }
                 "db" => {
-                    let s = match svar { 1 => StaticDoubleBitBinaryInputVariation::Group3Var1, 2 => StaticDoubleBitBinaryInputVariation::Group3Var2, _ => return None };
-                    let e = match evar { 1 => EventDoubleBitBinaryInputVariation::Group4Var1, 2 => EventDoubleBitBinaryInputVariation::Group4Var2, 3 => EventDoubleBitBinaryInputVariation::Group4Var3, _ => return None };
+                    let s = match svar {
+                        1 => StaticDoubleBitBinaryInputVariation::Group3Var1,
+                        2 => StaticDoubleBitBinaryInputVariation::Group3Var2,
+                        _ => return None,
+                    };
+                    let e = match evar {
+                        1 => EventDoubleBitBinaryInputVariation::Group4Var1,
+                        2 => EventDoubleBitBinaryInputVariation::Group4Var2,
+                        3 => EventDoubleBitBinaryInputVariation::Group4Var3,
+                        _ => return None,
+                    };
                     db.add(index, class, DoubleBitBinaryInputConfig::new(s, e))
                 }
                 "bo" => {
-                    let s = match svar { 1 => StaticBinaryOutputStatusVariation::Group10Var1, 2 => StaticBinaryOutputStatusVariation::Group10Var2, _ => return None };
-                    let e = match evar { 1 => EventBinaryOutputStatusVariation::Group11Var1, 2 => EventBinaryOutputStatusVariation::Group11Var2, _ => return None };
+                    let s = match svar {
+                        1 => StaticBinaryOutputStatusVariation::Group10Var1,
+                        2 => StaticBinaryOutputStatusVariation::Group10Var2,
+                        _ => return None,
+                    };
+                    let e = match evar {
+                        1 => EventBinaryOutputStatusVariation::Group11Var1,
+                        2 => EventBinaryOutputStatusVariation::Group11Var2,
+                        _ => return None,
+                    };
                     db.add(index, class, BinaryOutputStatusConfig::new(s, e))
                 }
                 "ct" => {
-                    let s = match svar { 1 => StaticCounterVariation::Group20Var1, 2 => StaticCounterVariation::Group20Var2, 5 => StaticCounterVariation::Group20Var5, 6 => StaticCounterVariation::Group20Var6, _ => return None };
-                    let e = match evar { 1 => EventCounterVariation::Group22Var1, 2 => EventCounterVariation::Group22Var2, 5 => EventCounterVariation::Group22Var5, 6 => EventCounterVariation::Group22Var6, _ => return None };
+                    let s = match svar {
+                        1 => StaticCounterVariation::Group20Var1,
+                        2 => StaticCounterVariation::Group20Var2,
+                        5 => StaticCounterVariation::Group20Var5,
+                        6 => StaticCounterVariation::Group20Var6,
+                        _ => return None,
+                    };
+                    let e = match evar {
+                        1 => EventCounterVariation::Group22Var1,
+                        2 => EventCounterVariation::Group22Var2,
+                        5 => EventCounterVariation::Group22Var5,
+                        6 => EventCounterVariation::Group22Var6,
+                        _ => return None,
+                    };
                     db.add(index, class, CounterConfig::new(s, e, 0))
                 }
                 "fc" => {
                     let s = match svar {
-                        1 => StaticFrozenCounterVariation::Group21Var1, 2 => StaticFrozenCounterVariation::Group21Var2,
-                        5 => StaticFrozenCounterVariation::Group21Var5, 6 => StaticFrozenCounterVariation::Group21Var6,
-                        9 => StaticFrozenCounterVariation::Group21Var9, 10 => StaticFrozenCounterVariation::Group21Var10, _ => return None };
-                    let e = match evar { 1 => EventFrozenCounterVariation::Group23Var1, 2 => EventFrozenCounterVariation::Group23Var2, 5 => EventFrozenCounterVariation::Group23Var5, 6 => EventFrozenCounterVariation::Group23Var6, _ => return None };
+                        1 => StaticFrozenCounterVariation::Group21Var1,
+                        2 => StaticFrozenCounterVariation::Group21Var2,
+                        5 => StaticFrozenCounterVariation::Group21Var5,
+                        6 => StaticFrozenCounterVariation::Group21Var6,
+                        9 => StaticFrozenCounterVariation::Group21Var9,
+                        10 => StaticFrozenCounterVariation::Group21Var10,
+                        _ => return None,
+                    };
+                    let e = match evar {
+                        1 => EventFrozenCounterVariation::Group23Var1,
+                        2 => EventFrozenCounterVariation::Group23Var2,
+                        5 => EventFrozenCounterVariation::Group23Var5,
+                        6 => EventFrozenCounterVariation::Group23Var6,
+                        _ => return None,
+                    };
                     db.add(index, class, FrozenCounterConfig::new(s, e, 0))
                 }
                 "ai" => {
                     let s = match svar {
-                        1 => StaticAnalogInputVariation::Group30Var1, 2 => StaticAnalogInputVariation::Group30Var2, 3 => StaticAnalogInputVariation::Group30Var3,
-                        4 => StaticAnalogInputVariation::Group30Var4, 5 => StaticAnalogInputVariation::Group30Var5, 6 => StaticAnalogInputVariation::Group30Var6, _ => return None };
+                        1 => StaticAnalogInputVariation::Group30Var1,
+                        2 => StaticAnalogInputVariation::Group30Var2,
+                        3 => StaticAnalogInputVariation::Group30Var3,
+                        4 => StaticAnalogInputVariation::Group30Var4,
+                        5 => StaticAnalogInputVariation::Group30Var5,
+                        6 => StaticAnalogInputVariation::Group30Var6,
+                        _ => return None,
+                    };
                     let e = match evar {
-                        1 => EventAnalogInputVariation::Group32Var1, 2 => EventAnalogInputVariation::Group32Var2, 3 => EventAnalogInputVariation::Group32Var3, 4 => EventAnalogInputVariation::Group32Var4,
-                        5 => EventAnalogInputVariation::Group32Var5, 6 => EventAnalogInputVariation::Group32Var6, 7 => EventAnalogInputVariation::Group32Var7, 8 => EventAnalogInputVariation::Group32Var8, _ => return None };
+                        1 => EventAnalogInputVariation::Group32Var1,
+                        2 => EventAnalogInputVariation::Group32Var2,
+                        3 => EventAnalogInputVariation::Group32Var3,
+                        4 => EventAnalogInputVariation::Group32Var4,
+                        5 => EventAnalogInputVariation::Group32Var5,
+                        6 => EventAnalogInputVariation::Group32Var6,
+                        7 => EventAnalogInputVariation::Group32Var7,
+                        8 => EventAnalogInputVariation::Group32Var8,
+                        _ => return None,
+                    };
                     db.add(index, class, AnalogInputConfig::new(s, e, 0.0))
                 }
                 "ao" => {
-                    let s = match svar { 1 => StaticAnalogOutputStatusVariation::Group40Var1, 2 => StaticAnalogOutputStatusVariation::Group40Var2, 3 => StaticAnalogOutputStatusVariation::Group40Var3, 4 => StaticAnalogOutputStatusVariation::Group40Var4, _ => return None };
+                    let s = match svar {
+                        1 => StaticAnalogOutputStatusVariation::Group40Var1,
+                        2 => StaticAnalogOutputStatusVariation::Group40Var2,
+                        3 => StaticAnalogOutputStatusVariation::Group40Var3,
+                        4 => StaticAnalogOutputStatusVariation::Group40Var4,
+                        _ => return None,
+                    };
                     let e = match evar {
-                        1 => EventAnalogOutputStatusVariation::Group42Var1, 2 => EventAnalogOutputStatusVariation::Group42Var2, 3 => EventAnalogOutputStatusVariation::Group42Var3, 4 => EventAnalogOutputStatusVariation::Group42Var4,
-                        5 => EventAnalogOutputStatusVariation::Group42Var5, 6 => EventAnalogOutputStatusVariation::Group42Var6, 7 => EventAnalogOutputStatusVariation::Group42Var7, 8 => EventAnalogOutputStatusVariation::Group42Var8, _ => return None };
+                        1 => EventAnalogOutputStatusVariation::Group42Var1,
+                        2 => EventAnalogOutputStatusVariation::Group42Var2,
+                        3 => EventAnalogOutputStatusVariation::Group42Var3,
+                        4 => EventAnalogOutputStatusVariation::Group42Var4,
+                        5 => EventAnalogOutputStatusVariation::Group42Var5,
+                        6 => EventAnalogOutputStatusVariation::Group42Var6,
+                        7 => EventAnalogOutputStatusVariation::Group42Var7,
+                        8 => EventAnalogOutputStatusVariation::Group42Var8,
+                        _ => return None,
+                    };
                     db.add(index, class, AnalogOutputStatusConfig::new(s, e, 0.0))
                 }
                 "os" => db.add(index, class, OctetStringConfig),
@@ -222,21 +393,95 @@ impl ConvertProbe {
     /// `Database::update2` of one measurement.  `value`: bi/bo 0|1, db 0..=3, ct/fc u32,
     /// ai/ao the f64 bit pattern.  `time`: (synchronized, ms).  `force`: EventMode::Force,
     /// otherwise the static value only (EventMode::Suppress)
-    pub fn update(&mut self, ty: &str, index: u16, value: u64, flags: u8, time: Option<(bool, u64)>, force: bool) -> &'static str {
+    pub fn update(
+        &mut self,
+        ty: &str,
+        index: u16,
+        value: u64,
+        flags: u8,
+        time: Option<(bool, u64)>,
+        force: bool,
+    ) -> &'static str {
         if self.dead {
             return "dead";
         }
-        let time = time.map(|(s, t)| if s { Time::synchronized(t) } else { Time::unsynchronized(t) });
+        let time = time.map(|(s, t)| {
+            if s {
+                Time::synchronized(t)
+            } else {
+                Time::unsynchronized(t)
+            }
+        });
         let flags = Flags::new(flags);
-        let opt = if force { UpdateOptions::new(true, EventMode::Force) } else { UpdateOptions::no_event() };
+        let opt = if force {
+            UpdateOptions::new(true, EventMode::Force)
+        } else {
+            UpdateOptions::no_event()
+        };
         let info = self.db.transaction(|db| match ty {
-            "bi" => db.update2(index, &BinaryInput { value: value != 0, flags, time }, opt),
-            "db" => db.update2(index, &DoubleBitBinaryInput { value: dbit_of(value), flags, time }, opt),
-            "bo" => db.update2(index, &BinaryOutputStatus { value: value != 0, flags, time }, opt),
-            "ct" => db.update2(index, &Counter { value: value as u32, flags, time }, opt),
-            "fc" => db.update2(index, &FrozenCounter { value: value as u32, flags, time }, opt),
-            "ai" => db.update2(index, &AnalogInput { value: f64::from_bits(value), flags, time }, opt),
-            "ao" => db.update2(index, &AnalogOutputStatus { value: f64::from_bits(value), flags, time }, opt),
+            "bi" => db.update2(
+                index,
+                &BinaryInput {
+                    value: value != 0,
+                    flags,
+                    time,
+                },
+                opt,
+            ),
+            "db" => db.update2(
+                index,
+                &DoubleBitBinaryInput {
+                    value: dbit_of(value),
+                    flags,
+                    time,
+                },
+                opt,
+            ),
+            "bo" => db.update2(
+                index,
+                &BinaryOutputStatus {
+                    value: value != 0,
+                    flags,
+                    time,
+                },
+                opt,
+            ),
+            "ct" => db.update2(
+                index,
+                &Counter {
+                    value: value as u32,
+                    flags,
+                    time,
+                },
+                opt,
+            ),
+            "fc" => db.update2(
+                index,
+                &FrozenCounter {
+                    value: value as u32,
+                    flags,
+                    time,
+                },
+                opt,
+            ),
+            "ai" => db.update2(
+                index,
+                &AnalogInput {
+                    value: f64::from_bits(value),
+                    flags,
+                    time,
+                },
+                opt,
+            ),
+            "ao" => db.update2(
+                index,
+                &AnalogOutputStatus {
+                    value: f64::from_bits(value),
+                    flags,
+                    time,
+                },
+                opt,
+            ),
             _ => UpdateInfo::NoPoint,
         });
         update_info(info)
@@ -246,7 +491,11 @@ impl ConvertProbe {
         if self.dead {
             return "dead";
         }
-        let opt = if force { UpdateOptions::new(true, EventMode::Force) } else { UpdateOptions::no_event() };
+        let opt = if force {
+            UpdateOptions::new(true, EventMode::Force)
+        } else {
+            UpdateOptions::no_event()
+        };
         let os = match OctetString::new(value) {
             Ok(x) => x,
             Err(_) => return "badvalue",
@@ -265,7 +514,11 @@ impl ConvertProbe {
             out.push("dead".to_string());
             return out;
         }
-        let headers = match HeaderCollection::parse(ParseOptions::default(), FunctionCode::Read, request_objects) {
+        let headers = match HeaderCollection::parse(
+            ParseOptions::default(),
+            FunctionCode::Read,
+            request_objects,
+        ) {
             Ok(x) => x,
             Err(e) => {
                 out.push(format!("badreq {e:?}"));
@@ -285,7 +538,10 @@ impl ConvertProbe {
                 (cursor.written().len(), info.complete, info.has_events)
             };
             let con = has_events || !complete;
-            buffer[0] = (u8::from(fir) << 7) | (u8::from(complete) << 6) | (u8::from(con) << 5) | (self.seq & 0x0F);
+            buffer[0] = (u8::from(fir) << 7)
+                | (u8::from(complete) << 6)
+                | (u8::from(con) << 5)
+                | (self.seq & 0x0F);
             buffer[1] = 0x81;
             buffer[2] = 0;
             buffer[3] = iin2.value;
@@ -336,13 +592,19 @@ impl ConvertProbe {
         // `extract_measurements` = begin_fragment, `extract_measurements_inner`, end_fragment; the
         // inner (synchronous) part is run under catch_unwind so that a panic inside the library's
         // object iterators becomes an output line instead of killing the harness
-        let _ = rec.begin_fragment(ReadType::SinglePoll, response.header).get().await;
+        let _ = rec
+            .begin_fragment(ReadType::SinglePoll, response.header)
+            .get()
+            .await;
         let res = std::panic::catch_unwind(std::panic::AssertUnwindSafe(|| {
             crate::master::extract::extract_measurements_inner(objects, &mut rec)
         }));
         let panicked = res.is_err();
         if !panicked {
-            let _ = rec.end_fragment(ReadType::SinglePoll, response.header).get().await;
+            let _ = rec
+                .end_fragment(ReadType::SinglePoll, response.header)
+                .get()
+                .await;
         }
         // merge the header sequence (for the common-time headers, which the handler never sees)
         // with the handler calls, in order; after a panic the last call is the one cut short
